@@ -25,7 +25,11 @@ def ndarray_get_state(obj: Any, save_context: SaveContext) -> dict[str, Any]:
         # allow_pickle=False, therefore we convert them to a list and
         # recursively call get_state on it.
         if obj.dtype == object:
-            obj_serialized = get_state(obj.tolist(), save_context)
+            # tolist() nests one list per axis; for a 0-dimensional array it
+            # returns the element itself, which is wrapped here so that the
+            # content is always a list
+            content = obj.tolist() if obj.ndim else [obj.tolist()]
+            obj_serialized = get_state(content, save_context)
             res["content"] = obj_serialized["content"]
             res["type"] = "json"
             res["shape"] = get_state(obj.shape, save_context)
@@ -96,14 +100,23 @@ class NdArrayNode(Node):
             shape = self.children["shape"].construct()
             tmp = [o.construct() for o in self.children["content"]]
 
-            # TODO: this is a hack to get the correct shape of the array. We
-            # should find _a better way_ to do this.
             if len(shape) == 1:
                 content = np.ndarray(shape=len(tmp), dtype="O")
                 for i, v in enumerate(tmp):
                     content[i] = v
             else:
-                content = np.array(tmp, dtype="O")
+                # The lists in tmp are nested once per axis (a 0-dimensional
+                # array is stored as a list holding its only element). The
+                # elements may be lists or tuples themselves, therefore the
+                # array is filled element by element: np.array(tmp) would turn
+                # such elements into further axes.
+                nested = tmp if shape else tmp[0]
+                content = np.empty(shape, dtype="O")
+                for index in np.ndindex(*shape):
+                    element = nested
+                    for i in index:
+                        element = element[i]
+                    content[index] = element
 
             return content
 
